@@ -30,7 +30,9 @@ CHECKS = {
         "same declarations + the query in fresh processes, re-checked in the kernel through the memo machine. C08_refuted_factor_order: the planner itself is not a function of the declarations alone -- it walks the factors of interned operands in the order of their first construction; scenario 'operand-order' (fresh process per query) reproduces this on the implementation and is the recorded finding history-dependent:factor-order, classified only when the planner model fed each process's exported factor order reproduces each outcome. "
         "C08_declaration_in_progress (Model/Memo2.v: two memo tables in series, a declaration as separate source lines with whole queries of other threads between them): with the memoised "
         "paths forgotten before the plans, every declaration leaves the state of a fresh process; C08_refuted_plans_forgotten_first is the order the library had before the repair e2a1d4e. "
-        "Per run Gen_declshape reads equate/translate/_forget_cached_conversions line by line, and the declaring thread is paused before each of its source lines while a second thread queries.",
+        "Per run Gen_declshape reads equate/translate/_forget_cached_conversions line by line, and the declaring thread is paused before each of its source lines while a second thread queries. "
+        "C08_declarations_keep_table_reciprocal / C08_latest_declaration_in_force / C08_other_declaration_keeps (Model/Declare.v, Proofs/EquateFacts.v): after any history of declarations and "
+        "re-declarations both directions of every pair carry the figure of its latest declaration; C08_refuted_reverse_ratio_kept; tied per run by Gen_eqshape (equate's assignments read off the source).",
    note=TB + "Assumes the planner has no hidden state besides _ratios/_offsets and the two lru caches (validated by the "
         "fresh-process differential). Axioms: none.",
    tech="Rocq proof: cache-coherence invariant by induction over histories (parametric in the planner)", ref="DESIGN.md §4 C08"),
@@ -168,7 +170,9 @@ CHECKS = {
         "kernel check of a plan's two coefficients lifts to every magnitude), C10_differences_scale, C10_roundtrip_exact, C10_order_preserved. Per run: the "
         "temperature graph is regenerated from the source and Lemma temperature_affine is discharged by vm_compute for all 16 ordered pairs of {K, degC, degF, R} x "
         "(no prefix + every registered prefix)^2: each plan is the ideal affine map of the exact decimal definitions within 2^-48; the same grid plus "
-        "int/float/Decimal magnitudes (below absolute zero included) and cross-scale comparisons run on the implementation against the model (kernel) and the closed form.",
+        "int/float/Decimal magnitudes (below absolute zero included) and cross-scale comparisons run on the implementation against the model (kernel) and the closed form. "
+        "C10_history_tables / C10_translated_pair_roundtrip: after any history of equate and translate declarations stored ratios are reciprocal and stored offsets opposite; "
+        "per run Gen_trshape reads translate's four assignments off the source (C10_source_stores_are_model_translate).",
    note=TB + "The prefix family is the registered prefixes (finite, exhaustive), not arbitrary Prefix(b, e). Float rounding of the implementation is measured "
         "(1e-11 against the exact model with an absolute reference for cancelling terms). Axioms: none.",
    tech="Rocq proof: affine form of plan application + reflective vm_compute check on the regenerated temperature graph", ref="DESIGN.md §4 C10"),
